@@ -60,12 +60,14 @@ Variable rf : rec_fns.
 Variable acfg : amf_cfg.
 Hypothesis FX : fx_msg_ok fx.
 Hypothesis FR : fx_rtspidx fx = true.
+Hypothesis FA : fx_addflag fx = true.
 Hypothesis RF : rf_safe rf.
+Variable add : bool.
 
-Lemma rtsp_remux_done s m : gate_ok m -> forall s' n, rtsp_remux fx false s m = Ok (s', n) -> rs_cache s' = rs_cache s /\ rs_done s' = rs_done s.
+Lemma rtsp_remux_done s m : gate_ok m -> forall s' n, rtsp_remux fx add s m = Ok (s', n) -> rs_cache s' = rs_cache s /\ rs_done s' = rs_done s.
 Proof.
   intros Hg s' n H.
-  destruct (rtsp_remux_ok fx FX FR s m Hg) as (s1 & n1 & E & Hc). rewrite E in H. inversion H; subst. split; [exact Hc|].
+  destruct (rtsp_remux_ok fx FX FR FA add s m Hg) as (s1 & n1 & E & Hc). rewrite E in H. inversion H; subst. split; [exact Hc|].
   clear H. revert E. unfold rtsp_remux.
   destruct (mm_type m =? t_audio).
   { pose proof (audio_packer_done s) as Hd. destruct (rtsp_audio_packer s) as [sa has]. cbn [fst] in Hd.
@@ -75,14 +77,14 @@ Proof.
   destruct (rs_sps s); [|intro H; inversion H; reflexivity].
   intro H. bstep H as codec E1. bstep H as en E2. bstep H as index E3.
   destruct (_ && _ && _); [inversion H; reflexivity|].
-  bstep H as payload E4. cbn [bind] in H. bstep H as n2 E5. inversion H; reflexivity.
+  bstep H as payload E4. bstep H as payload2 E5. bstep H as n2 E6. inversion H; reflexivity.
 Qed.
 
 Lemma rtsp_meta_shape s p s' : rtsp_meta acfg s p = Ok s' -> rs_cache s' = rs_cache s /\ rs_done s' = rs_done s.
 Proof.
-  unfold rtsp_meta.
+  unfold rtsp_meta, rtsp_meta_gen.
   destruct (fst (parse_metadata acfg p)) as [meta|e|site]; [|intro X; inversion X; split; reflexivity|discriminate].
-  destruct (pairs_find _ meta) as [[bits|b|str|l]|]; intro X; inversion X; try (split; reflexivity).
+  intro X. bstep X as codec E1. bstep X as sr E2. inversion X. destruct codec as [bits|]; [|split; reflexivity].
   destruct (_ =? 8); [split; reflexivity|]. destruct (_ =? 7); [split; reflexivity|]. destruct (_ =? 13); split; reflexivity.
 Qed.
 
@@ -95,14 +97,14 @@ Proof.
 Qed.
 
 Lemma rtsp_feed_shape s m s' ev :
-  rtsp_feed fx rf acfg false s m = Ok (s', ev) -> q_shape (rs_done s) (rs_cache s) m (rs_done s') (rs_cache s').
+  rtsp_feed fx rf acfg add s m = Ok (s', ev) -> q_shape (rs_done s) (rs_cache s) m (rs_done s') (rs_cache s').
 Proof.
   unfold rtsp_feed. destruct (mm_type m =? t_meta).
   { intro H. bstep H as sm E1. inversion H; subst. left. destruct (rtsp_meta_shape _ _ _ E1) as [Hc Hd]. split; congruence. }
   destruct (rtsp_gate_short m) eqn:Gate; [intro H; inversion H; subst; left; split; reflexivity|].
   assert (Hg : gate_ok m).
   { unfold rtsp_gate_short in Gate. split; intro Ht; rewrite Ht in Gate; cbn in Gate; apply Nat.leb_gt in Gate; exact Gate. }
-  destruct (rtsp_sniff_audio_ok fx FR s m Hg) as [s0 [-> [Hc0 Hd0]]]. cbn [bind].
+  destruct (rtsp_sniff_audio_ok fx FR FA s m Hg) as [s0 [-> [Hc0 Hd0]]]. cbn [bind].
   intro H. bstep H as ash E1. bstep H as vsh E2. rewrite <- Hc0, <- Hd0.
   destruct (negb (rs_done s0)) eqn:ND.
   - assert (Hdf : rs_done s0 = false) by (destruct (rs_done s0); [discriminate|reflexivity]).
@@ -147,7 +149,6 @@ Variable c : grp_cfg.
 Hypothesis FX : fx_all_ok fx.
 Hypothesis CF : cf_safe cf.
 Hypothesis RF : rf_safe rf.
-Hypothesis ADD : gc_add c = false.
 
 Lemma bc_ts_shape g m t : bc_ts fx cf c g m = Ok t -> q_shape (ts_done (g_ts g)) (ts_data (g_ts g)) m (ts_done t) (ts_data t).
 Proof.
@@ -158,8 +159,8 @@ Qed.
 Lemma bc_rtsp_shape g m r x : bc_rtsp fx rf acfg c g m = Ok (r, x) -> q_shape (rs_done (g_rtsp g)) (rs_cache (g_rtsp g)) m (rs_done r) (rs_cache r).
 Proof.
   unfold bc_rtsp. destruct (gc_rtsp c); [|intro H; inversion H; subst; left; split; reflexivity].
-  rewrite ADD. intro H. bstep H as [r1 ev] E1. bstep H as x1 E2. inversion H; subst.
-  pose proof FX as (FM & _ & FR & _). eapply (rtsp_feed_shape fx rf acfg FM FR). exact E1.
+  intro H. bstep H as [r1 ev] E1. bstep H as x1 E2. inversion H; subst.
+  pose proof FX as (FM & _ & FR & _ & _ & FA). eapply (rtsp_feed_shape fx rf acfg FM FR FA). exact E1.
 Qed.
 
 Lemma subs_step_len has m l l' : subs_step fx has m l = Ok l' -> length l' = length l.
@@ -330,7 +331,6 @@ Variable c : grp_cfg.
 Hypothesis FX : fx_all_ok fx.
 Hypothesis CF : cf_safe cf.
 Hypothesis RF : rf_safe rf.
-Hypothesis ADD : gc_add c = false.
 Variable F : N.     (* bound on fan + 2 over the history *)
 
 Definition phi (g : grp_st) : N := pending g + F * dW (g_dummy g).
@@ -342,22 +342,22 @@ Lemma on_read_amort g m :
 Proof.
   intros Hi Hs Hts HF. unfold on_read. destruct (gc_dummy c) as [wait|].
   - destruct Hi as (Hi1 & Hi2 & Hi3 & Hi4).
-    pose proof FX as ((F1 & F2 & _) & _ & _ & FD & _).
+    pose proof FX as ((F1 & F2 & _) & _ & _ & FD & _ & _).
     destruct (dummy_feed_ok (stat_safe rf sf) (fun ts => proj1 (GEN rf sf ts)) (fun ts => proj2 (GEN rf sf ts)) fx F1 F2 FD wait (g_dummy g) m Hi3 Hi4 Hts Hs)
       as (outs & d' & E & Ho & _ & Hd1 & Hd2).
     destruct (dummy_feed_amort fx F1 F2 FD wait (g_dummy g) m Hi4 Hts) as (outs2 & d2 & E2 & Hcost).
     rewrite E in E2. inversion E2; subst outs2 d2. clear E2. rewrite E. cbn [bind].
     match goal with |- context [broadcast_all fx cf rf sf acfg c ?g1 outs ?k0] =>
-      destruct (broadcast_all_ok fx cf rf sf acfg c FX CF RF ADD outs g1 k0) as (g2 & k2 & E3 & Hi' & _); [repeat split; assumption|exact Ho|];
-      destruct (broadcast_all_amort fx cf rf sf acfg c FX ADD outs g1 k0 g2 k2 E3) as (A1 & A2 & A3) end.
+      destruct (broadcast_all_ok fx cf rf sf acfg c FX CF RF outs g1 k0) as (g2 & k2 & E3 & Hi' & _); [repeat split; assumption|exact Ho|];
+      destruct (broadcast_all_amort fx cf rf sf acfg c FX outs g1 k0 g2 k2 E3) as (A1 & A2 & A3) end.
     rewrite E3. do 2 eexists. split; [reflexivity|]. split; [exact Hi'|]. split; [exact A2|].
     unfold phi. rewrite A3. cbn [g_dummy]. unfold pending in *. cbn [g_ts g_rtsp] in A1. unfold fan in A1, HF. cbn [g_rtmp_subs g_flv_subs] in A1.
     fold (fan g) in A1, HF.
     assert (Hm : (fan g + 2) * msgs_cost outs <= F * msgs_cost outs) by (apply N.mul_le_mono_r; exact HF).
     assert (Hd : F * (msgs_cost outs + dW d') <= F * (dW (g_dummy g) + msg_cost m + fill_cost)) by (apply N.mul_le_mono_l; exact Hcost).
     rewrite !N.mul_add_distr_l in Hd. rewrite N.mul_add_distr_r. lia.
-  - destruct (broadcast_ok fx cf rf sf acfg c FX CF RF ADD g m Hi Hs) as (g1 & k1 & E & Hi1 & _).
-    destruct (broadcast_amort fx cf rf sf acfg c FX ADD g m g1 k1 E) as (A1 & A2 & A3).
+  - destruct (broadcast_ok fx cf rf sf acfg c FX CF RF g m Hi Hs) as (g1 & k1 & E & Hi1 & _).
+    destruct (broadcast_amort fx cf rf sf acfg c FX g m g1 k1 E) as (A1 & A2 & A3).
     rewrite E. do 2 eexists. split; [reflexivity|]. split; [exact Hi1|]. split; [exact A2|].
     unfold phi. rewrite A3.
     assert (Hm : (fan g + 2) * msg_cost m <= F * msg_cost m) by (apply N.mul_le_mono_r; exact HF).
